@@ -84,6 +84,39 @@ def run(c):
         if not ra.export_ginfo(c, hginfo, sc):
             continue
         lines = ra.acc_lines(sc, rng, per)
+        # field-backed external masks on fields that also have a hidden TL2 presence bit: the same call with a nil mask pointer.
+        # The TL1 mask cannot follow (the caller withheld it), so there is no model tie; what the property still demands is that
+        # IsSet (which takes no mask for such fields) reports the field present after Set and absent after Clear, others unchanged.
+        I = sc.desc["instances"]
+        zf = []
+        for f in (l.split(" ") for l in lines):
+            if len(f) == 12 and f[10].startswith("f") and f[6] != "-":
+                tgt = I[I[int(f[2])]["fields"][int(f[6].split(":")[0])]["ty"]]
+                fi = (tgt.get("fields") or [])[int(f[7].split(":")[0])] if tgt.get("fields") else None
+                if fi is not None and fi.get("tl2bit") is not None and not fi.get("isBit"):
+                    zf.append(" ".join(f[:10] + ["z" + f[10]] + [",".join(":".join(r.split(":")[:2] + ["z" + r.split(":", 2)[2]]) if r.split(":", 2)[2].startswith("f") else r for r in f[11].split(","))]))
+        from vlib.core import run_lines
+        for l, a in zip(zf, run_lines(sc.impl, zf, prefix=ra.prefix(sc), mem_limit=c.impl_mem_limit, timeout=c.impl_timeout)):
+            c.evaluations += 1
+            c.count("acc:nil-field-mask-pointer:" + a.split(" ")[0])
+            if not a.startswith("ok "):
+                if a in ("panic", "CRASH", "TIMEOUT"):
+                    c.oracle_fail(l, "accessor call with a nil mask pointer does not return normally: " + a, l)
+                continue
+            f = l.split(" ")
+            i = f[7].split(":")[0]
+            o = dict(p.split("=", 1) for p in a.replace(" | ", " ").split(" ")[1:] if "=" in p)
+            after = dict(p.split(":") for p in o["isset"].split(","))
+            before = dict(p.split(":") for p in o["before"].split(","))
+            want = "0" if f[8] == "clear" else "1"
+            probs = []
+            if after.get(i) != want:
+                probs.append("IsSet reports %s after %s with a nil mask pointer" % (after.get(i), f[8]))
+            ch = [j for j in after if j != i and after[j] != before.get(j)]
+            if ch:
+                probs.append("IsSet of other fields changed: " + ",".join(ch))
+            if probs:
+                c.oracle_fail(l, "accessor called with a nil mask pointer leaves the reported presence wrong: " + "; ".join(probs), l)
         res = c.tie("acc:" + sc.sid, lines, sc.impl, model, prefix=ra.prefix(sc), canon=ra.canon_acc)
         for l, a, b in res:
             if not a.startswith("ok "):
